@@ -10,6 +10,7 @@ import (
 	"go.brendoncarroll.net/p2p/p/p2pke"
 	"pgregory.net/rapid"
 
+	"verif/harness/internal/adv/kefake"
 	"verif/harness/internal/ev"
 )
 
@@ -280,6 +281,50 @@ func TestC02Session(t *testing.T) {
 					binary.BigEndian.PutUint32(d, uint32(rapid.IntRange(16, 40).Draw(t, "ctr")))
 				}
 				deliver(pickSess(t, "receiver"), poolMsg{data: d, label: "random"}, "inject")
+			},
+			"forgedPeer": func(t *rapid.T) {
+				// An adversary without any private key of the pair opens its own key exchange towards a fresh
+				// responder of identity 1, re-using the identity claim it saw in P0's genuine InitHello, skips or
+				// fakes InitDone, and sends data under the keys it derived. Nothing of it may reach the application.
+				hello, err := p2pke.Message(pool[0].data).GetInitHello()
+				if err != nil {
+					t.Skip("no hello in the pool")
+				}
+				victim := newSession(1, false, tBase)
+				fp := kefake.NewPeer(true)
+				_, rh, err := victim.Deliver(nil, fp.InitHello(hello.TimestampTai64N, hello.KeyX509, hello.Sig), tBase)
+				if err != nil || len(rh) == 0 {
+					return
+				}
+				cb, ok := fp.ReadRespHello(rh)
+				if !ok {
+					return
+				}
+				trace = append(trace, "forged peer with lifted claim")
+				adversarialOnData++
+				steps := rapid.SliceOfN(rapid.SampledFrom([]string{"data", "data", "doneGarbage", "doneOwnKey", "lowCounterData"}), 1, 5).Draw(t, "forgedSteps")
+				for _, st := range steps {
+					var m []byte
+					switch st {
+					case "data":
+						m = fp.Data([]byte("forged-plaintext-0123456789"))
+					case "lowCounterData":
+						fp.Counter = uint32(rapid.IntRange(2, 15).Draw(t, "ctr"))
+						m = fp.Data([]byte("forged-plaintext-0123456789"))
+						fp.Counter = 16
+					case "doneGarbage":
+						m = fp.InitDone(bytes.Repeat([]byte{0x5a}, 64))
+					case "doneOwnKey":
+						m = fp.InitDone(kefake.SignAs(2, kefake.PurposeCB, cb))
+					}
+					isApp, out, err := victim.Deliver(nil, m, tBase)
+					if err == nil && isApp {
+						fail("a responder handed %q to the application although its peer never proved the claimed key (forged step %s after a lifted InitHello claim)", out, st)
+					}
+					if victim.IsReady() {
+						fail("a responder became ready for a peer that never proved the claimed key (forged step %s)", st)
+					}
+				}
 			},
 			"nearLimit": func(t *rapid.T) {
 				s := pickSess(t, "limited")
